@@ -149,10 +149,20 @@ def run_art(cid, ctx, runs):
     }
 
 
-def verdict(cid, r, known_matchers=()):
+def verdict(cid, r, known_matchers=(), search=None):
     """Turns failures into violations / known findings.  A correspondence failure without
-    an oracle failure anywhere in the run is reported as no-failing-input-found."""
+    an oracle failure anywhere in the run triggers `search` (more generated cases, other
+    seeds, evaluated by the property oracle); if that finds no failing input either, the
+    violation is reported as no-failing-input-found."""
     violations, known = [], []
+    if r["corr_fail"] and not r["oracle_fail"] and search is not None:
+        try:
+            extra = search()
+            r["oracle_fail"] += extra.get("oracle_fail", [])
+            r["evaluations"] += extra.get("evaluations", 0)
+            r["search_evaluations"] = extra.get("evaluations", 0)
+        except Exception as e:  # the search is best effort
+            r["search_error"] = str(e)[:200]
     for (cidx, case, of, path) in r["oracle_fail"]:
         matched = None
         for m in known_matchers:
